@@ -55,6 +55,11 @@ def travel_matrix(rnd, nm, zeros=0.15, tmax=6, sym=False, in_name="in-buf", out_
                 M[i][k] = M[k][i]
             else:
                 M[i][k] = 0 if rnd.random() < zeros else rnd.randint(1, tmax)
+    if rnd.random() < 0.3:
+        # a non-zero diagonal is accepted by the DSL: moving a job from a machine's post-buffer to
+        # the same machine's pre-buffer (re-entrant routes) then takes time
+        for i in range(nm):
+            M[i][i] = rnd.randint(0, tmax)
     return names, M
 
 
